@@ -3,7 +3,11 @@ use vmon::{Args, Mon};
 
 mod c01;
 mod c13;
+mod c17;
 mod common;
+
+#[global_allocator]
+static A: vmon::alloc::Counting = vmon::alloc::Counting;
 
 fn main() {
     let args = Args::parse();
@@ -11,6 +15,7 @@ fn main() {
     let (rule, assumptions): (String, Vec<&'static str>) = match args.prop.as_str() {
         "C01" => c01::run(&args, &mut mon),
         "C13" => c13::run(&args, &mut mon),
+        "C17" => c17::run(&args, &mut mon),
         other => panic!("chk-net does not implement {other}"),
     };
     let code = mon.finish(&args, &rule, &assumptions);
